@@ -82,6 +82,23 @@ Proof.
 Qed.
 Print Assumptions C02_partial_flat.
 
+(* finding F02b: the declared nesting of the outputs (State.depth, used by nest_output_type) is computed from the
+   combiner as written, not from the linked fields: for ([a,d],[c,b]) combined over a,b everything is combined
+   (depth 0, one flat list) but the declared depth is 1, and the run fails with a TypeError after all jobs ran *)
+Definition C02_declared_depth_statement : Prop :=
+  forall (s : spl) (comb : list nat), wf s -> (forall x, In x comb -> In x (leaves s)) ->
+    state_depth s comb = state_depth s (linked s comb).
+Theorem C02_declared_depth_refuted : ~ C02_declared_depth_statement.
+Proof.
+  intros H. specialize (H (Inner [Outer [Fld 0; Fld 3]; Outer [Fld 2; Fld 1]]) [0; 1]).
+  assert (W : wf (Inner [Outer [Fld 0; Fld 3]; Outer [Fld 2; Fld 1]])).
+  { split; [reflexivity|]. repeat constructor; cbn; intuition discriminate. }
+  specialize (H W). assert (A : forall x, In x [0; 1] -> In x (leaves (Inner [Outer [Fld 0; Fld 3]; Outer [Fld 2; Fld 1]]))).
+  { cbn. intuition. }
+  specialize (H A). vm_compute in H. discriminate.
+Qed.
+Print Assumptions C02_declared_depth_refuted.
+
 (* non-vacuity: the hypotheses of C02_partial hold for the inner-pair splitter when the pair itself is combined,
    and the two formulations of the reference agree there; they fail for the F02 witness *)
 Example C02_example :
